@@ -4,6 +4,7 @@
 package saslfam
 
 import (
+	"context"
 	"crypto/tls"
 	"encoding/base64"
 	"encoding/json"
@@ -12,6 +13,7 @@ import (
 	"strings"
 	"time"
 
+	mail "github.com/wneessen/go-mail"
 	"github.com/wneessen/go-mail/smtp"
 
 	"verif/harness/pipeconn"
@@ -26,6 +28,9 @@ type Scenario struct {
 	Kind   string   `json:"kind"` // adv, honest
 	Mech   string   `json:"mech"`
 	Script []string `json:"script"`
+	// Prior: "" - one smtp.Client.Auth call with the caller's Auth object; "client" - a mail.Client with a built-in SCRAM type
+	// that has completed a valid exchange on an earlier connection (same server identity) before the scripted one
+	Prior  string   `json:"prior"`
 	Sent   []string `json:"sent"`
 	OK     bool     `json:"ok"`
 	// honest exchanges
@@ -312,6 +317,10 @@ func (rn *Runner) Run() {
 		}
 		cfg := refsmtp.Config{Caps: []string{"AUTH " + sc.Mech}, Faults: map[refsmtp.Key]refsmtp.Fault{},
 			Addr: map[string][2]int{}, Expected: map[int][]byte{}}
+		if sc.Prior == "client" {
+			rn.runAdvThroughClient(cfg)
+			break
+		}
 		cfg.Auth = func(st *tls.ConnectionState) refsmtp.AuthHandler {
 			return &adv{rn: rn, script: sc.Script, tlsState: st, salt: []byte("adv-salt-" + fmt.Sprint(rn.T))}
 		}
@@ -332,6 +341,55 @@ func (rn *Runner) Run() {
 	}
 	r.Emit("end", "t", rn.T)
 	r.Seal()
+}
+
+// runAdvThroughClient: the adversary meets a mail.Client that has authenticated before. The server keeps its memory
+// across the two connections (it can replay what it signed on the first one).
+func (rn *Runner) runAdvThroughClient(cfg refsmtp.Config) {
+	sc, r := rn.Sc, rn.Rec
+	at := map[string]mail.SMTPAuthType{"SCRAM-SHA-1": mail.SMTPAuthSCRAMSHA1, "SCRAM-SHA-256": mail.SMTPAuthSCRAMSHA256}[sc.Mech]
+	if at == "" {
+		rn.Infra = fmt.Errorf("prior=client: mechanism %q not supported", sc.Mech)
+		return
+	}
+	shared := &adv{rn: rn, salt: []byte("adv-salt-" + fmt.Sprint(rn.T))}
+	var script []string
+	cfg.Auth = func(st *tls.ConnectionState) refsmtp.AuthHandler {
+		shared.script, shared.i, shared.tlsState = script, 0, st
+		if shared.srvFirst != "" && shared.cFinalWO != "" { // what was signed on the earlier connection can be replayed on this one
+			shared.prevAM = shared.cfBare + "," + shared.srvFirst + "," + shared.cFinalWO
+		}
+		shared.cfBare, shared.srvFirst, shared.cFinalWO, shared.lastFirst, shared.cFinalAny, shared.lastWasV = "", "", "", "", "", false
+		return shared
+	}
+	var srvs []*refsmtp.Server
+	dial := func(ctx context.Context, network, address string) (net.Conn, error) {
+		conn, srv, _, err := rn.transport(cfg, "")
+		srvs = append(srvs, srv)
+		return conn, err
+	}
+	mc, err := mail.NewClient("mail.example.test", mail.WithDialContextFunc(dial), mail.WithTLSPolicy(mail.NoTLS),
+		mail.WithSMTPAuth(at), mail.WithUsername(advUser), mail.WithPassword(advPass), mail.WithHELO("client.test"), mail.WithTimeout(20*time.Second))
+	if err != nil {
+		rn.Infra = err
+		return
+	}
+	script = []string{"empty", "validFirst", "validFinal", "ok235"} // (the client sends its first message in answer to an empty challenge)
+	if derr := mc.DialWithContext(context.Background()); derr != nil {
+		rn.Infra = fmt.Errorf("the honest first exchange failed: %w", derr)
+		return
+	}
+	_ = mc.Close()
+	r.Emit("newconn")
+	script = sc.Script
+	aerr := mc.DialWithContext(context.Background())
+	r.Emit("ret", "ok", aerr == nil, "text", clip(aerr))
+	_ = mc.Close()
+	for _, s := range srvs {
+		if s != nil {
+			s.Wait(10 * time.Second)
+		}
+	}
 }
 
 func clip(err error) string {
